@@ -445,3 +445,56 @@ def r_stateless( ctx ):
                 else:
                     res.ok( src, f, '%s.%s keeps no per-parse state on the shared state object' % ( cd.name, f.name ), nontrivial=False )
     return res
+
+
+@rule( 'R-REENTRANT', props=( 'C08', 'C09', 'C06' ), floor=3 )
+def r_reentrant( ctx ):
+    """the locks of the request path ( UCMM.lock, route_lock, the parser locks, gateway_lock ... ) are plain threading.Lock objects: a thread that
+    holds one and asks for it again waits for itself.  Inside every `with <obj>.<lock>:` block no method of the same object is called that
+    takes the same lock ( directly or through further methods of its class ) - a helper factored out "with its own locking" and called from a
+    block that already holds the lock never answers, and every later request that needs the lock hangs with it."""
+    res = Result( 'R-REENTRANT' )
+    n = 0
+    for rel in ( 'server/enip/ucmm.py', 'server/enip/device.py', 'server/enip/logix.py', 'server/enip/client.py', 'server/enip/get_attribute.py', 'server/enip/main.py', 'automata.py', 'dotdict.py' ):
+        src = ctx.src( rel )
+        for cd in ast.walk( src.tree ):
+            if not isinstance( cd, ast.ClassDef ):
+                continue
+            methods = { f.name: f for f in cd.body if isinstance( f, ast.FunctionDef ) }
+            def locks_of( f ):
+                return { norm_text( ast.unparse( it.context_expr )) for w in ast.walk( f ) if isinstance( w, ast.With ) for it in w.items
+                         if 'lock' in ast.unparse( it.context_expr ).lower() and isinstance( it.context_expr, ( ast.Attribute, ast.Name )) }
+            direct = { name: locks_of( f ) for name, f in methods.items() }
+            calls = { name: { c.func.attr for c in ast.walk( f ) if isinstance( c, ast.Call ) and isinstance( c.func, ast.Attribute ) and dotted( c.func.value ) in ( 'self', 'cls', 'self.__class__' ) and c.func.attr in methods }
+                      for name, f in methods.items() }
+            takes = { name: set( l ) for name, l in direct.items() }
+            changed = True
+            while changed:
+                changed = False
+                for name in methods:
+                    for callee in calls[name]:
+                        extra = takes[callee] - takes[name]
+                        if extra:
+                            takes[name] |= extra; changed = True
+            def canon( l ):
+                return l.replace( 'self.__class__.', 'self.' ).replace( 'cls.', 'self.' )
+            for name, f in methods.items():
+                for w in ast.walk( f ):
+                    if not isinstance( w, ast.With ):
+                        continue
+                    held = { canon( norm_text( ast.unparse( it.context_expr ))) for it in w.items if 'lock' in ast.unparse( it.context_expr ).lower() and isinstance( it.context_expr, ( ast.Attribute, ast.Name )) }
+                    if not held:
+                        continue
+                    n += 1
+                    again = [ ( c, l ) for b in w.body for c in ast.walk( b ) if isinstance( c, ast.Call ) and isinstance( c.func, ast.Attribute ) and dotted( c.func.value ) in ( 'self', 'cls', 'self.__class__' )
+                              and c.func.attr in methods for l in takes[c.func.attr] if canon( l ) in held ]
+                    rlock = any( isinstance( a_, ast.Assign ) and any( canon( norm_text( ast.unparse( t_ ))) in held or ( isinstance( t_, ast.Name ) and 'self.' + t_.id in held ) for t_ in a_.targets ) and is_call_to( a_.value, 'threading.RLock', 'RLock' ) for a_ in ast.walk( cd ))
+                    if again and not rlock:
+                        c, l = again[0]
+                        res.bad( src, c, '%s.%s calls self.%s( ... ) while holding %s, which %s takes itself' % ( cd.name, name, c.func.attr, sorted( held )[0], c.func.attr ),
+                                 'the lock is not re-entrant: the thread blocks on the lock it already owns - the request is never answered, and every later request that needs the lock ( any session ) hangs with it', func='%s.%s' % ( cd.name, name ))
+                    else:
+                        res.ok( src, w, '%s.%s: nothing called under %s takes it again' % ( cd.name, name, sorted( held )[0] ))
+    if n < 3:
+        raise AnalysisError( 'R-REENTRANT: only %d lock-holding blocks found' % n )
+    return res
